@@ -285,6 +285,26 @@ class SymTok:
     def __contains__(self, sub):
         return bool(self.pointwise(lambda s, x: x in s, sub))
 
+    # ordering (hand-written scanners compare characters: "0" <= ch <= "9")
+    def _order(self, op, o):
+        if isinstance(o, SymStr):
+            o = o.concrete()
+        if not isinstance(o, (str, SymTok)):
+            return NotImplemented
+        return self.pointwise(op, o)
+
+    def __lt__(self, o):
+        return self._order(operator.lt, o)
+
+    def __le__(self, o):
+        return self._order(operator.le, o)
+
+    def __gt__(self, o):
+        return self._order(operator.gt, o)
+
+    def __ge__(self, o):
+        return self._order(operator.ge, o)
+
     def __add__(self, o):
         if isinstance(o, SymStr):
             return NotImplemented
@@ -507,6 +527,18 @@ class SymStr:
             return not r
         return ~r
 
+    def __lt__(self, o):
+        return self.concrete() < (o.concrete() if isinstance(o, (SymStr, SymTok)) else o)
+
+    def __le__(self, o):
+        return self.concrete() <= (o.concrete() if isinstance(o, (SymStr, SymTok)) else o)
+
+    def __gt__(self, o):
+        return self.concrete() > (o.concrete() if isinstance(o, (SymStr, SymTok)) else o)
+
+    def __ge__(self, o):
+        return self.concrete() >= (o.concrete() if isinstance(o, (SymStr, SymTok)) else o)
+
     def _pred(self, f):
         """str predicate semantics: non-empty and all chars satisfy f"""
         if not self.cells:
@@ -718,6 +750,9 @@ def proxy_fault(ex):
     input pinned to concrete values (forking over them: more paths, same meaning) instead of being judged."""
     if not isinstance(ex, (TypeError, AttributeError, NotImplementedError)):
         return False
+    msg = str(ex)
+    if any(n in msg for n in ("SymStr", "SymTok", "SymInt", "SymBool", "TokStr", "TokFrag", "SDict", "SSet", "STuple", "SPattern", "LazyNoNop")):
+        return True   # C code (str.join, re, int(), ...) refused a proxy by its type name
     tb, last = ex.__traceback__, None
     while tb is not None:
         last, tb = tb, tb.tb_next
